@@ -145,8 +145,12 @@ def _sched(acc, job, deadline):
             return cb
 
         callbacks = [mk(k) for k in range(ncb)]
-        est = AdversarialFairnessClassifier(backend=Eng, predictor_model=[], adversary_model=[], batch_size=bs, epochs=epochs,
-                                            callbacks=callbacks if ncb > 1 else callbacks[0], shuffle=False, random_state=0)
+        if n % 2:
+            est = AdversarialFairnessClassifier(backend=Eng, predictor_model=[], adversary_model=[], batch_size=bs, epochs=epochs,
+                                                callbacks=callbacks if ncb > 1 else callbacks[0], shuffle=False, random_state=0)
+        else:  # configured through set_params after construction
+            est = AdversarialFairnessClassifier(backend=Eng, predictor_model=[], adversary_model=[], shuffle=False, random_state=0)
+            est.set_params(batch_size=bs, epochs=epochs, callbacks=callbacks if ncb > 1 else callbacks[0])
         est.max_iter = mi  # not a constructor argument of the public classes: set like a parameter (set_params is not available for it)
         try:
             ret = est.fit(X, y, sensitive_features=A)
@@ -308,8 +312,12 @@ def replay(cex):
             return cb
 
         callbacks = [mk(k) for k in range(ncb)]
-        est = AdversarialFairnessClassifier(backend=Eng, predictor_model=[], adversary_model=[], batch_size=bs, epochs=epochs,
-                                            callbacks=callbacks if ncb > 1 else callbacks[0], shuffle=False, random_state=0)
+        if n % 2:
+            est = AdversarialFairnessClassifier(backend=Eng, predictor_model=[], adversary_model=[], batch_size=bs, epochs=epochs,
+                                                callbacks=callbacks if ncb > 1 else callbacks[0], shuffle=False, random_state=0)
+        else:  # configured through set_params after construction
+            est = AdversarialFairnessClassifier(backend=Eng, predictor_model=[], adversary_model=[], shuffle=False, random_state=0)
+            est.set_params(batch_size=bs, epochs=epochs, callbacks=callbacks if ncb > 1 else callbacks[0])
         est.max_iter = mi  # not a constructor argument of the public classes: set like a parameter (set_params is not available for it)
         try:
             ret = est.fit(X, y, sensitive_features=A)
